@@ -249,7 +249,8 @@ class MockState:
         # parse attribution
         if attribution_lines:
             attribution_text = "\n".join(attribution_lines)
-            lineno = self._lineno + line_offset + (attribution_line_offset or 0)
+            # note line_offset is the number of lines between the directive line and lines[0]
+            lineno = self._lineno + line_offset + (attribution_line_offset or 0) + 1
             textnodes, messages = self.inline_text(attribution_text, lineno)
             attribution = nodes.attribution(attribution_text, "", *textnodes)
             (
